@@ -65,11 +65,13 @@ def run(ctx):
     invs = ["HeaderOnlyFirst", "StartsWithHeader", "LastCallRows", "UidsParallel", "UidNumbersDistinctPerCall",
             "PtagsParallel", "LastCallPlus"]
     maxops = 4 if thorough else 3
-    ctx.tlc("Export", {"MaxOps": maxops + 1, "Fault": "none", "EmitCases": False}, invariants=invs, properties=["ReopenKeepsRows"])
+    ctx.tlc("Export", {"MaxOps": maxops + 1, "Fault": "none", "EmitCases": False}, invariants=invs,
+            properties=["ReopenKeepsRows", "RejectedWriteChangesNothing"])
     ctx.tlc("Export", {"MaxOps": 3, "Fault": "none", "EmitCases": False}, invariants=invs, coverage=True, count=False)
-    ctx.require_actions(["Csv", "WInit", "WWrite", "WClose", "WOpen"])
-    for fault in ("append_always_header", "header_after_open", "uid_not_advanced", "plus_first_row_only"):
-        ctx.tlc("Export", {"MaxOps": 3, "Fault": fault, "EmitCases": False}, invariants=invs, expect_violation=fault, count=False)
+    ctx.require_actions(["Csv", "WInit", "WWrite", "WWriteBad", "WClose", "WOpen"])
+    for fault in ("append_always_header", "header_after_open", "uid_not_advanced", "plus_first_row_only", "bad_write_partial"):
+        ctx.tlc("Export", {"MaxOps": 3, "Fault": fault, "EmitCases": False}, invariants=invs,
+                properties=["RejectedWriteChangesNothing"], expect_violation=fault, count=False)
     res = ctx.tlc("Export", {"MaxOps": maxops, "Fault": "none", "EmitCases": True}, invariants=["EmitCase"], workers=1, count=False)
     cases = []
     for i, c in enumerate(res.cases):
